@@ -1,6 +1,7 @@
 package main
 
 import (
+	"go/token"
 	"fmt"
 	"math/big"
 	"go/constant"
@@ -27,6 +28,8 @@ type SpecEnv struct {
 	hdr      *ssa.BasicBlock
 	depth    int
 	ownFrame bool // evaluating the verified function's own `modifies`
+	addrs    map[string]Val // addresses of the callee's captured variables (closure call sites)
+	pkgOverride string // package in whose scope type names of the current clause are resolved
 }
 
 func (env *SpecEnv) fail(format string, args ...interface{}) Val {
@@ -71,6 +74,11 @@ func (env *SpecEnv) bindParamsTypesOnly(fn *ssa.Function) {
 }
 
 func (env *SpecEnv) pkg() *types.Package {
+	if env.pkgOverride != "" {
+		if sp, ok := env.ex.w.SPkgs[env.pkgOverride]; ok {
+			return sp.Pkg
+		}
+	}
 	if env.spec != nil && env.spec.FilePkg != "" {
 		if sp, ok := env.ex.w.SPkgs[env.spec.FilePkg]; ok {
 			return sp.Pkg
@@ -214,11 +222,24 @@ func (env *SpecEnv) eval(x Expr) Val {
 	case EUn:
 		if x.Op == "&" {
 			// address of a heap-allocated local variable
+			if id, ok := x.X.(EIdent); ok && env.addrs != nil {
+				if p, ok := env.addrs[id.Name]; ok {
+					return p
+				}
+			}
 			if id, ok := x.X.(EIdent); ok && env.fr != nil {
+				if p, ok := env.fr.captured[id.Name]; ok && p.T != "" {
+					return p
+				}
 				for _, a := range env.fr.locals[id.Name] {
 					if pv, ok := env.fr.vals[a]; ok && pv.T != "" {
 						return Val{T: pv.T, S: sInt, GoT: a.Type()}
 					}
+				}
+			}
+			if _, isSel := x.X.(ESel); isSel {
+				if p, ok := env.ptrTo(x.X); ok {
+					return p
 				}
 			}
 			return env.fail("cannot take the address of %s", exprString(x.X))
@@ -376,6 +397,23 @@ func (env *SpecEnv) loadRef(ref string, t types.Type) Val {
 func (env *SpecEnv) localVar(name string) (Val, bool) {
 	fr := env.fr
 	allocs := fr.locals[name]
+	if name == "rangeslice" && env.hdr != nil {
+		// the (otherwise unnamed) slice a `for ... range` loop iterates over
+		for _, in := range env.hdr.Instrs {
+			if b, ok := in.(*ssa.BinOp); ok && b.Op == token.LSS {
+				if c, ok := b.Y.(*ssa.Call); ok {
+					if bi, ok := c.Call.Value.(*ssa.Builtin); ok && bi.Name() == "len" && len(c.Call.Args) == 1 {
+						v := env.ex.val(fr, c.Call.Args[0])
+						if v.T != "" && v.Bad == "" {
+							v.GoT = c.Call.Args[0].Type()
+							return v, true
+						}
+					}
+				}
+			}
+		}
+		return Val{}, false
+	}
 	if name == "rangeindex" && env.hdr != nil {
 		for _, in := range env.hdr.Instrs {
 			if s, ok := in.(*ssa.Store); ok {
@@ -823,6 +861,14 @@ func (env *SpecEnv) callExpr(x ECall) Val {
 			return Val{T: app("i2f", v.T), S: sF, GoT: types.Typ[types.Float64]}
 		}
 		return v
+	case "fabs":
+		// |x| of a float: math.Abs
+		v := env.eval(x.Args[0])
+		if e.ctx.bv {
+			return Val{T: app("fp.abs", v.T), S: sF, GoT: types.Typ[types.Float64]}
+		}
+		e.ctx.declareFun("fn$math.Abs", []string{sF}, sF)
+		return Val{T: app("fn$math.Abs", v.T), S: sF, GoT: types.Typ[types.Float64]}
 	case "isNaN":
 		v := env.eval(x.Args[0])
 		if e.ctx.bv {
@@ -900,6 +946,10 @@ func (env *SpecEnv) callExpr(x ECall) Val {
 			return env.fail("pointee: first argument must be a slice of pointers")
 		}
 		return boolVal(sel(e.pointeeSet(env.old, sv, sl), xv.T))
+	case "nextref":
+		// the allocation counter: every object allocated from now on has a
+		// reference >= nextref()
+		return intVal(env.st.nextRef)
 	case "held":
 		// held(mutexptr) -> lock mode 0 none, 1 read, 2 write
 		v := env.eval(x.Args[0])
@@ -1011,7 +1061,36 @@ func (env *SpecEnv) evalLoc(x Expr) []heapLoc {
 			}
 		}
 	case ECall:
+		if x.Fn == "elemsSince" && len(x.Args) == 2 {
+			// elemsSince(s, b): every backing array of slices with the element type
+			// of s that was allocated when the allocation counter was >= b
+			v := env.eval(x.Args[0])
+			b := env.eval(x.Args[1])
+			if v.GoT != nil {
+				if sl, ok := v.GoT.Underlying().(*types.Slice); ok {
+					bt := b.T
+					return []heapLoc{{heap: e.elemHeap(sl.Elem()), pred: func(r string) string { return le(bt, r) }}}
+				}
+			}
+			break
+		}
 		if len(x.Args) != 1 {
+			break
+		}
+		if x.Fn == "allof" {
+			// allof(T.f): field f of every object of struct type T
+			if sel, ok := x.Args[0].(ESel); ok {
+				t := env.resolveType(exprString(sel.X))
+				if t != nil {
+					if st, ok := t.Underlying().(*types.Struct); ok {
+						for i := 0; i < st.NumFields(); i++ {
+							if st.Field(i).Name() == sel.Name && !isStruct(st.Field(i).Type()) {
+								return []heapLoc{{heap: e.fieldHeap(t, i), all: true}}
+							}
+						}
+					}
+				}
+			}
 			break
 		}
 		v := env.eval(x.Args[0])
@@ -1037,6 +1116,17 @@ func (env *SpecEnv) evalLoc(x Expr) []heapLoc {
 			if p, ok := v.GoT.Underlying().(*types.Pointer); ok {
 				return []heapLoc{{heap: e.boxHeap(p.Elem()), ref: v.T}}
 			}
+		case "anyelems":
+			// anyelems(s): every backing array of slices with the element type of s
+			// (used for containers whose array is reallocated by other goroutines)
+			if sl, ok := v.GoT.Underlying().(*types.Slice); ok {
+				return []heapLoc{{heap: e.elemHeap(sl.Elem()), all: true}}
+			}
+		case "since":
+			// since(b): every object (of any type) whose reference is >= b, i.e.
+			// allocated after the allocation counter had the value b
+			b := v.T
+			return []heapLoc{{heap: "*", pred: func(r string) string { return le(b, app("root", r)) }}}
 		case "pointees":
 			// every field of every object pointed to by an element of the slice
 			if sl, ok := v.GoT.Underlying().(*types.Slice); ok {
@@ -1222,4 +1312,15 @@ func (e *Exec) pointeeSet(st *State, v Val, sl *types.Slice) string {
 	e.ctx.assumeGlobal(fmt.Sprintf("(forall ((j Int)) (! (=> (and (<= 0 j) (< j %s)) (select %s %s)) :pattern (%s)))", slLen(v.T), key, el, el))
 	e.ctx.assumeGlobal(fmt.Sprintf("(forall ((r Int)) (! (=> (select %s r) (exists ((j Int)) (and (<= 0 j) (< j %s) (= r %s)))) :pattern ((select %s r))))", key, slLen(v.T), el, key))
 	return key
+}
+
+// evalClause evaluates a contract clause in the scope of the contract file it
+// was written in (assumed contracts of external functions can be extended by
+// several files).
+func (env *SpecEnv) evalClause(c *Clause) Val {
+	saved := env.pkgOverride
+	env.pkgOverride = c.Pkg
+	v := env.eval(c.E)
+	env.pkgOverride = saved
+	return v
 }
